@@ -91,6 +91,7 @@ def handleRw : List String → String
   | _ => "bad-op"
 
 structure NmState where
+  pkgObjs : List (Nat × Name) := []
   minify : Bool := false
   chain : List Scope := []
   ids : List Nat := []
@@ -124,6 +125,16 @@ def handleNm (st : NmState) : List String → NmState × String
         match varPtrName st.minify v n (pk == "1") (st.chain.drop d) with
         | none => (st, "panic")
         | some (post, nm) => ({ st with chain := st.chain.take d ++ post }, toHex nm)
+    | _, _, _ => (st, "bad-op")
+  | ["obj", s, o, h, pk] =>
+    match s.toNat?, o.toNat?, parseHex h with
+    | some s, some o, some n =>
+      match depthOf s st.ids 0 with
+      | none => (st, "bad-scope")
+      | some d =>
+        match objectName st.minify o n (pk == "1") st.pkgObjs (st.chain.drop d) with
+        | none => (st, "panic")
+        | some (post, tbl, nm) => ({ st with chain := st.chain.take d ++ post, pkgObjs := tbl }, toHex nm)
     | _, _, _ => (st, "bad-op")
   | ["child", p, h] =>
     match p.toNat?, parseHex h with
